@@ -29,6 +29,9 @@ from harness.common import engine_run, coq_crosscheck, fq
 
 TARGETS = ["theories/Props/C18.vo", "theories/Proofs/GenEq_StatParse.vo", "theories/Proofs/TsvGenEq_Layout.vo"]
 GENEQ = {"theories/Proofs/GenEq_StatParse.vo": "StatParse", "theories/Proofs/TsvGenEq_Layout.vo": "TsvLayout"}
+# T1 units added after round 4 of the seeded changes
+TARGETS = TARGETS + ["theories/Proofs/GenEq_AggIO.vo"]
+GENEQ = dict(GENEQ, **{"theories/Proofs/GenEq_AggIO.vo": "AggIO"})
 ALLOWED_AXIOMS = []
 RULE = ("case = (evaluator configuration: 1-4 class groups named from a nasty-name stream ('-', '_', blanks, upper case, "
         "unicode, digits, colliding after lower-casing; tabs/quotes/newlines in a separate stream), random instance/global "
